@@ -64,6 +64,11 @@ func c15Step(x *engine.Exec) []engine.Failure {
 	switch {
 	case isRed:
 		x.Cnt.Inc("redelegate.ok")
+		if x.W.Cfg.FullPipeline {
+			if val, err := x.W.App.StakingKeeper.GetValidator(x.Prev.Ctx, x.W.Vals[x.Op.V]); err == nil && !val.IsBonded() {
+				x.Cnt.Inc("redelegate.source_not_bonded")
+			}
+		}
 		ref.onRedelegate(x)
 		n := ref.Red[len(ref.Red)-1]
 		for _, r := range ref.Red[:len(ref.Red)-1] {
@@ -222,10 +227,30 @@ func init() {
 				sc.Required = []string{"redelegate.ok", "redelegate.attempt_out_of_pending_destination", "slash.source_of_pending_entry", "slash.wiped_destination_of_pending_entry", "redelegate.attempt_out_of_pending_destination_after_slash", "endblock.matured_redelegation"}
 				return sc
 			}
-			if tier == "thorough" {
-				return []*engine.Scenario{mk("c15-redelegation", []int{4, 0, 0, 4, 0}, 8), mkSlashed([]int{5, 2, 0, 3, 0}, 9)}
+			// full pipeline: the source (or destination) validator has left the active set - jailed, unbonding, unbonded - when the
+			// redelegation is made; the pending period is the staking unbonding period all the same
+			left := func(budgets []int, depth int) *engine.Scenario {
+				sc := mk("c15-validator-left-active-set", budgets, depth)
+				cfg := c07Config()
+				cfg.FullPipeline = true
+				sc.Cfg, sc.Stores = cfg, world.AllStores
+				sc.Seeds = [][]world.Op{{opDel(0, 0, "aaa", "1000"), opDel(0, 1, "aaa", "1000"), opDel(1, 0, "aaa", "500"), opBlock(1)}}
+				sc.Ops = func(n *engine.Node) []world.Op {
+					return []world.Op{
+						{K: world.KRedelegate, D: 0, V: 0, V2: 1, Denom: "aaa", Amt: "7", Class: ClsUser},
+						{K: world.KRedelegate, D: 0, V: 1, V2: 2, Denom: "aaa", Amt: "3", Class: ClsUser},
+						{K: world.KRedelegate, D: 0, V: 1, V2: 0, Denom: "aaa", Amt: "5", Class: ClsUser},
+						{K: world.KJail, V: 0, Class: ClsEnv}, {K: world.KUnjail, V: 0, Class: ClsEnv},
+						{K: world.KBlock, Dt: int64(U), Class: ClsBlock}, {K: world.KBlock, Dt: int64(3 * U), Class: ClsBlock},
+					}
+				}
+				sc.Required = []string{"redelegate.ok", "redelegate.attempt_out_of_pending_destination", "redelegate.source_not_bonded", "endblock.matured_redelegation"}
+				return sc
 			}
-			return []*engine.Scenario{mk("c15-redelegation", []int{3, 0, 0, 3, 0}, 5), mkSlashed([]int{4, 1, 0, 2, 0}, 6)}
+			if tier == "thorough" {
+				return []*engine.Scenario{mk("c15-redelegation", []int{4, 0, 0, 4, 0}, 8), mkSlashed([]int{5, 2, 0, 3, 0}, 9), left([]int{3, 0, 2, 5, 0}, 9)}
+			}
+			return []*engine.Scenario{mk("c15-redelegation", []int{3, 0, 0, 3, 0}, 5), mkSlashed([]int{4, 1, 0, 2, 0}, 6), left([]int{2, 0, 2, 4, 0}, 7)}
 		},
 		Assumptions: []string{
 			"seed: D0 on V0,V1,V2 (aaa) and V0 (bbb), D1 on V0; unbonding period 3u; block steps 1u/2u/3u/7u; no reward inflow, so a redelegation's implicit claims pay nothing",
